@@ -102,12 +102,26 @@ def mk_model(cfg: Dict[str, Any], **override):
     return cls(**kw)
 
 
-def mk_teams(model, teams: List[List[List[float]]], names=False):
+def mk_teams(model, teams: List[List[List[float]]], names=False, clone_ids=None):
+    """clone_ids: None (every rating is created by model.rating: fresh unique ids) | 'all' | 'alternate': the ratings are copy.deepcopy
+    clones of ONE template rating with mu and sigma assigned afterwards - what seeding accounts from a template, or rating a player against
+    an earlier snapshot of herself, produces: distinct objects, different values, the SAME id (deepcopy keeps it)."""
+    import copy
+
     out = []
+    template = model.rating() if clone_ids else None
+    k = 0
     for i, t in enumerate(teams):
         row = []
         for j, p in enumerate(t):
-            if names:
+            k += 1
+            if clone_ids == "all" or (clone_ids == "alternate" and k % 2 == 0):
+                r = copy.deepcopy(template)
+                r.mu, r.sigma = p[0], p[1]
+                if names:
+                    r.name = f"p{i}.{j}"
+                row.append(r)
+            elif names:
                 row.append(model.rating(p[0], p[1], name=f"p{i}.{j}"))
             else:
                 row.append(model.rating(p[0], p[1]))
@@ -168,7 +182,7 @@ def vals(res) -> List[List[tuple]]:
 def rate_values(cfg, teams, call, ctx=None):
     """Fresh model + fresh ratings -> list of list of (mu, sigma)."""
     m = mk_model(cfg)
-    objs = mk_teams(m, teams)
+    objs = mk_teams(m, teams, clone_ids=call.get("clone_ids"))
     return vals(rate(m, objs, call, ctx))
 
 
